@@ -45,6 +45,22 @@ CLAIMED = {
              text='Static: each listed validity result / length condition of the RSA public, private, verify, decrypt, unpad and key-derivation functions (i15, i31, i32, i62), when it signals failure, forces the failure return on every path; each padding-structure contribution is a conjunct of the verdict (loop-aware must-dataflow). Decides rejection discipline, not arithmetic correctness.',
              note='Trusted: clang/opt 14, the obligation table (sa/checks/c10.py), debug-info variable names as site selectors. Host configuration only in quick tier.'),
 }
+ADDED = {
+ 'C01': 'engine I/O transition table (progress, ready state), handshake-state reinitialisation on reset, ServerKeyExchange hash by version, key-export seed (RFC 5705), explicit nonce taken from the record, CBC padding length range, ECDH buffer sizes',
+ 'C02': 'engine rejection table, CBC block-multiple gates and padding range / length, Poly1305 block decoding (bit provenance), sequence-number encoding, GHASH tail',
+ 'C03': 'key usage / key type per suite, resumption rules, session invalidation on failure, signature hash comparison shape, ECDSA verifier obligations, FALLBACK_SCSV grid, CertificateVerify hash range, server-name handling, mandatory-check reference of both handshake interpreters',
+ 'C04': 'anchor comparison operands, key-usage masks, name comparison vectors, calendar table, OID table, ASN.1 signature length obligations, decode_mod source coverage, unavoidable CA test, mandatory-check reference, minimum RSA size threshold, RSA verifier wrapper obligations',
+ 'C05': 'whole-library bounded-copy rule (178 armed sites), engine buffer bounds and offered regions, no resume after failure, status accessors, curve-id range, self-indexed buffer wrap, modpow window room, mandatory-check reference of the key decoders',
+ 'C06': 'I/O buffers disjoint, close order, renegotiation declined, input-only mode is read-only, engine progress / ready / offered regions, state reinitialisation, close_notify flag kept, CBC split room',
+ 'C08': '98 entries incl. ECDSA signers, hash functions on secret data, HMAC key setup; mark audit; bits2int order; intraprocedural OAEP unpadding rule; failed key exchange randomised',
+ 'C10': 'keygen forced bits, zero stripping direction, public-exponent gate, modpow temporaries, key-exchange padding coverage, muladd quotient mask, sibling call sequences (i15/i31/i32), decode_mod coverage',
+ 'C11': 'muladd zero test, RFC 6979 inputs, P-256 decode conjuncts, ASN.1 length / sign rules, zero-hash verification, final-reduction selector, keygen candidate independence, formula tables, sibling call sequences (i15/i31, m15/m31, m62/m64)',
+ 'C12': 'SSE2 / AES-NI lane counters, counter carry chains, CTR counter advance, Poly1305 wrap, block decoding and ctmulq carry ranges, DES EDE schedule, GHASH partial block, empty chunk identity, CBC-dec IV, tail-copy lint, sibling call sequences (aes_big/aes_small)',
+ 'C13': 'TLS 1.0 PRF shape, HMAC constant-time window and key handling, MD padding and update chunking, DRBG state update / chunking / seed padding, SHAKE padding and round constants, HKDF blocks / positions / limit, hash state save and restore',
+ 'C14': 'chunk completion, authenticated bytes, EAX MAC restart, counter carry chains, empty chunk identity, lane counters, GHASH tail',
+ 'C19': 'close order, renegotiation declined / binding / extension required, alert levels and parser state, close_notify flag kept, record type restored before yield, no-renegotiation option, engine progress table, I/O wrapper closes the engine on a failed write',
+ 'C20': 'seed fully absorbed, sequence-number encoding, record IV writers, ephemeral key fully drawn, session ID freshness, hello randoms drawn, seeder rules on three configurations',
+}
 NA = {
  'C07': 'outcome independent of chunking is a statement about suspended interpreter state across pushes; only a frozen-bytecode-fragment match would be available statically',
  'C09': 'exact numerical results of word primitives and big-integer routines over all operands need a solver or arbitrary-precision oracle, not a shape-of-code rule',
@@ -70,11 +86,15 @@ m = dict(
   dict(name='TAB', path='sa/tab.py', serves_properties=['C01', 'C11', 'C12', 'C13'], kind_free_text='constants lifted from IR vs references generated from the standards'),
   dict(name='WMW', path='sa/wmw.py', serves_properties=['C06', 'C20'], kind_free_text='who-may-write / exactly-once structural rules over the whole program IR'),
   dict(name='FLOW', path='sa/flow.py', serves_properties=['C08'], kind_free_text='label propagation (taint / may-dependence) over the IR facts of the whole program'),
-  dict(name='FOLD', path='sa/fold.py, sa/oblig.py', serves_properties=['C02', 'C03', 'C05', 'C06', 'C10', 'C11', 'C14', 'C20'], kind_free_text='hypothesis folding with opt-14 as abstract interpreter; must-conjunct dataflow'),
+  dict(name='FOLD', path='sa/fold.py, sa/oblig.py', serves_properties=sorted(CLAIMED), kind_free_text='hypothesis folding and partial evaluation with opt-14 as abstract interpreter; must-conjunct dataflow'),
+  dict(name='ENGIO', path='sa/engio.py', serves_properties=['C01', 'C02', 'C05', 'C06', 'C19'], kind_free_text='transition table over the record-engine registers'),
+  dict(name='BUFCOPY', path='sa/bufcopy.py, rules/bufcopy_sites.json', serves_properties=['C05'], kind_free_text='whole-library bounded bulk writes and index stores'),
+  dict(name='SYM', path='sa/sym.py, sa/bitprov.py, sa/carryai.py', serves_properties=['C02', 'C05', 'C06', 'C10', 'C12', 'C14'], kind_free_text='symbolic normal forms, bit-provenance domain, trace-partitioned intervals for carry chains'),
+  dict(name='LINTS', path='sa/lints.py, sa/siblings.py, sa/t0mandatory.py, rules/*.json, selftest/lint_bad.c', serves_properties=['C02', 'C03', 'C04', 'C05', 'C10', 'C11', 'C12', 'C13', 'C14'], kind_free_text='whole-library lints with positive controls; sibling agreement; reference tables of reviewed instances'),
  ],
  checks=[dict(property_id=p, quick_cmd='./check %s --tier quick' % p, thorough_cmd='./check %s --tier thorough' % p,
               evidence_file='evidence/%s.json' % p, replay_cmd_template='./check replay {path}', engine='sa/checks/%s.py' % p.lower(),
-              level_claimed=dict(category='other', text=c['text'], design_ref='DESIGN.md §4 ' + p), level_note=c['note'], technique=c['technique'])
+              level_claimed=dict(category='other', text=c['text'] + ' Added while building (DESIGN.md section 11): ' + ADDED[p] + '.', design_ref='DESIGN.md §4 ' + p + ', §11'), level_note=c['note'], technique=c['technique'])
          for p, c in sorted(CLAIMED.items())],
  not_applicable=[dict(property_id=p, reason=r) for p, r in sorted({**NA, **PENDING}.items())],
  notes='Static analysis only. Exit 2 = analysis broken (anchor vanished / tool failure), never reported as pass or violation.',
